@@ -41,9 +41,49 @@ class Ctx:
         return self.ck.ob(cond, r, self.f.name, "%s[%s]" % (construct, self.label), ok, bad, where=where or self.where)
 
 
+def _index_exit_value(f, ps):
+    """index-based data loop `for (X = 0; X < B; X += s)` with B a multiple of s: when the loop is left, X == B (X stays a multiple of s
+    and never passes B).  Returns {header: (phi id, B)} so that the paths after the loop can be analysed with that value, or {}"""
+    heads = {p.end[1] for p in ps if p.end[0] in ("loop-entry", "backedge")}
+    out = {}
+    for h in heads:
+        ptrs, ints = hd_syms(f, h)
+        if ptrs or len(ints) != 1:
+            continue
+        X = ("hd", ints[0].id)
+        ent = [p for p in ps if p.end[0] == "loop-entry" and p.end[1] == h and p.blocks and p.blocks[0] == 0]
+        back = [p for p in ps if p.end[0] == "backedge" and p.end[1] == h]
+        if not ent or not back:
+            continue
+        if any(is_word(p.env.get(("init", ints[0].id))) or p.env.get(("init", ints[0].id)) is None or p.env.get(("init", ints[0].id)).const() != 0 for p in ent):
+            continue
+        Bs = set()
+        okb = True
+        for p in back:
+            bn = p.env.get(("back", ints[0].id))
+            step = bn.add(Lf.s(X), -1).const() if bn is not None and not is_word(bn) else None
+            g = [cc for cc in p.conds if cc[0] == "ult" and cc[2] and cc[1] is not None and cc[1].get(X) == 1]
+            if not step or step < 1 or len(g) != 1:
+                okb = False
+                break
+            B = Lf.s(X).add(g[0][1], -1)                 # X < B  <=>  (X - B) <u 0 ... recorded as d = X - B
+            if X in B or any(c_ % step for s_, c_ in B.items()):
+                okb = False
+                break
+            Bs.add(repr(B))
+            Bv = B
+        if okb and len(Bs) == 1:
+            out[h] = (ints[0].id, Bv)
+    return out
+
+
 def run_paths(f, klen, word_args=()):
     ex = irx.Exec(f, mode.Handler(klen), mode.havoc_state(klen // 32), word_args=word_args, auto=True)
     ps = ex.run()
+    eq = _index_exit_value(f, ps)
+    if eq:
+        ex = irx.Exec(f, mode.Handler(klen), mode.havoc_state(klen // 32), word_args=word_args, auto=True, exit_eq=eq)
+        ps = ex.run()
     for p in ps:
         if any(e[0] == "cond-data" for e in p.events):
             raise Broken("%s branches on data bits: path summaries are not comparable with the reference (constant-time rule C07 decides such code)" % f.name)
@@ -747,7 +787,7 @@ def check_cipher(ck, mod, f, label, rulemap):
                     want_ptr = ch[0][5]        # addressed from the entry values: c + clen - 8 is the tag position by definition
                 elif idx_style and dv:
                     # index style: c + 4*(full words) + left-over bytes is the same position
-                    alts = {repr(Lf({A["c"]: 1, dv[0][0]: 4, 1: r})), repr(Lf({A["c"]: 1, dv[0][0]: 4, dv[0][1]: 1}))}
+                    alts = {repr(Lf({A["c"]: 1, dv[0][0]: 4}).add(Lf.c(r))), repr(Lf({A["c"]: 1, dv[0][0]: 4, dv[0][1]: 1}))}
                     want_ptr = ch[0][5] if ch[0][5] in alts else sorted(alts)[0]
                 c.ob(ch[0][5] == want_ptr and ch[0][6] == 8, "TAGPOS", "%s-received-tag" % name, "received tag read right after the %d ciphertext byte(s) of this tail (8 bytes)" % r,
                      "received tag is read at %s (%s bytes), expected %s" % (ch[0][5], ch[0][6], want_ptr))
